@@ -805,6 +805,32 @@ func ruleStepAccounting(c *Ctx) {
 	if k < 4 {
 		c.Undec(rule, "single-peer steps with a ConfVerChanged method", "at least 4", "", fmt.Sprint(k))
 	}
+	// steps that do not touch the membership account for nothing, whatever the region looks like: a leader transfer,
+	// a merge (the merged region's conf version is not the sum of anything this operator did) and a split. A step
+	// of these kinds that claims conf changes lets an operator absorb that many changes made by someone else and
+	// survive the stale check.
+	z := 0
+	for _, name := range []string{"TransferLeader", "MergeRegion", "SplitRegion"} {
+		m := P.methodOpt(op, name, "ConfVerChanged")
+		if m == nil {
+			continue
+		}
+		z++
+		okZero := true
+		for _, b := range m.Blocks {
+			if r, ok := b.Instrs[len(b.Instrs)-1].(*ssa.Return); ok && len(r.Results) == 1 {
+				for _, alt := range valueAlternatives(retVal(r, 0), 4) {
+					if k, isC := constInt(alt); !isC || k != 0 {
+						okZero = false
+					}
+				}
+			}
+		}
+		c.Check(okZero, rule, "("+name+").ConfVerChanged", "0 on every path: the step changes no membership", P.pos(m.Pos()), "a path returns something other than the constant 0")
+	}
+	if z < 3 {
+		c.Undec(rule, "membership-neutral steps with a ConfVerChanged method", "3", "", fmt.Sprint(z))
+	}
 }
 
 func init() {
